@@ -31,6 +31,7 @@ type c11Case struct {
 	Renewals int    `json:"renewals"`
 	StartSeq uint32 `json:"sequence_number_at_start"`
 	Forced   bool   `json:"straggler_forced"`
+	Hazards  bool   `json:"requests_that_fail_before_sending_and_a_failing_renewal,omitempty"`
 	Seed     int64  `json:"seed"`
 	Detail   string `json:"detail,omitempty"`
 }
@@ -105,12 +106,24 @@ func c11ClientSender(c *fw.Ctx, cs c11Case) {
 		cfg.SecurityPolicyURI, cfg.SecurityMode = refpeer.URIBasic256Sha256, ua.MessageSecurityMode(cs.Mode)
 		cfg.Certificate, cfg.LocalKey, cfg.RemoteCertificate, cfg.Thumbprint = ck.Cert, ck.Key, sk.Cert, uapolicy.Thumbprint(sk.Cert)
 	}
+	if cs.Hazards {
+		// requests above the announced message size are refused before anything is written; one renewal gets no
+		// answer and fails after the request timeout
+		so.Ack.MaxMsg = 20000
+		cfg.RequestTimeout = 400 * time.Millisecond
+	}
 	srv, err := refpeer.NewServer(so)
 	if err != nil {
 		c.Inconclusive("listen: " + err.Error())
 		return
 	}
 	defer srv.Close()
+	var renewSeen int32
+	if cs.Hazards {
+		srv.OnOpen = func(sc *refpeer.SrvConn, m *refpeer.Msg, renew bool) bool {
+			return !(renew && atomic.AddInt32(&renewSeen, 1) == 2) // the second renewal stays unanswered
+		}
+	}
 	srv.Handler = func(sc *refpeer.SrvConn, m *refpeer.Msg) {
 		switch req := m.Service.(type) {
 		case *ua.ReadRequest:
@@ -193,8 +206,18 @@ func c11ClientSender(c *fw.Ctx, cs c11Case) {
 				} else {
 					req = &ua.ReadRequest{NodesToRead: []*ua.ReadValueID{{NodeID: ua.NewNumericNodeID(1, uint32(g*1000+k)), AttributeID: ua.AttributeIDValue, DataEncoding: &ua.QualifiedName{}}}}
 				}
-				if err := sc.SendRequest(ctx, req, nil, func(ua.Response) error { return nil }); err != nil {
+				rctx := ctx
+				if cs.Hazards && gr.Intn(5) == 0 {
+					// the caller has given up before the request is sent
+					x, xc := context.WithCancel(ctx)
+					xc()
+					rctx = x
+				}
+				if err := sc.SendRequest(rctx, req, nil, func(ua.Response) error { return nil }); err != nil {
 					atomic.AddInt64(&failed, 1)
+					if cs.Hazards {
+						c.Class("hazard:"+classOf(err.Error()), 1)
+					}
 				}
 			}
 		}()
@@ -215,9 +238,29 @@ func c11ClientSender(c *fw.Ctx, cs c11Case) {
 		}
 		renewedOnce.Do(func() { close(renewed) })
 	}()
+	renew2Done := make(chan struct{})
+	go func() {
+		defer close(renew2Done)
+		if !cs.Hazards {
+			return
+		}
+		// a second caller renews on its own, at times together with the first
+		r2 := rand.New(rand.NewSource(cs.Seed ^ 0x5bd1e995))
+		for k := 0; k < cs.Renewals; k++ {
+			select {
+			case <-stopRenew:
+				return
+			case <-time.After(time.Duration(1+r2.Intn(8)) * time.Millisecond):
+			}
+			if err := sc.Renew(ctx); err == nil {
+				c.Class("renewals-completed-by-second-caller", 1)
+			}
+		}
+	}()
 	wg.Wait()
 	close(stopRenew)
 	<-renewDone
+	<-renew2Done
 	time.Sleep(20 * time.Millisecond)
 	srv.DropConns(false)
 	c.Class("requests-failed", atomic.LoadInt64(&failed))
@@ -361,6 +404,9 @@ func c11Run(c *fw.Ctx) error {
 		}
 		r := c.Rng("c11", i)
 		cs := c11Case{Index: i, Side: []string{"client-channel", "server"}[(i/int64(c.NBatch))%2], Mode: 1 + r.Intn(3), Callers: []int{2, 4, 8, 16, 32}[r.Intn(5)], Renewals: 1 + r.Intn(5), Seed: r.Int63(), Forced: r.Intn(3) == 0}
+		if cs.Side == "client-channel" && (i/int64(c.NBatch))%4 == 2 {
+			cs.Hazards, cs.Renewals = true, 3+r.Intn(3)
+		}
 		if r.Intn(3) == 0 {
 			cs.StartSeq = 0xffffffff - 1023 - uint32(5+r.Intn(60))
 		}
